@@ -22,3 +22,5 @@ def run(prog, rep):
     from ..rules import r_order as _ro2
     _ro2.run_attr_search(prog, rep)
     _ro2.run_identity(prog, rep)
+    from ..rules import r_safe as _rsn
+    _rsn.run_namebuf(prog, rep)
